@@ -95,6 +95,14 @@ func (f *c14Filter) log(kind, ret string) {
 func (f *c14Filter) OnReceive(ctx context.Context, headers api.HeaderMap, buf api.IoBuffer, trailers api.HeaderMap) api.StreamFilterStatus {
 	f.calls++
 	ret := api.StreamFilterContinue
+	if redo, n, ok := c14RedoN(f.spec.Verdict); ok {
+		// asks again on each of the first n calls (every resumed pass starts with this filter), then continues
+		if f.calls <= n {
+			ret = redo
+		}
+		f.log("recv", string(ret))
+		return ret
+	}
 	switch f.spec.Verdict {
 	case "continue":
 	case "stop":
@@ -154,6 +162,76 @@ func (f *c14Filter) OnReceive(ctx context.Context, headers api.HeaderMap, buf ap
 	}
 	f.log("recv", string(ret))
 	return ret
+}
+
+// c14RedoN decodes the parameterised verdicts "rematch*N" / "rechoose*N": the filter asks for a
+// re-match of the route / a re-choice of the host on each of its first N calls of one request.
+func c14RedoN(v string) (api.StreamFilterStatus, int, bool) {
+	for _, k := range []struct {
+		pre string
+		st  api.StreamFilterStatus
+	}{{"rematch*", api.StreamFilterReMatchRoute}, {"rechoose*", api.StreamFilterReChooseHost}} {
+		if strings.HasPrefix(v, k.pre) {
+			n := 0
+			if _, err := fmt.Sscanf(v[len(k.pre):], "%d", &n); err == nil && n > 0 {
+				return k.st, n, true
+			}
+		}
+	}
+	return "", 0, false
+}
+
+// c14RedoScenarios: REPEATED redo requests inside one request. A filter R asks n times (n over ns) for a
+// re-match (after-route) / re-choice (after-choose-host), alone, behind a continuing filter of its phase, in
+// front of a later filter of its phase with the verdicts continue / hijack+stop / direct response, with a
+// filter of a LATER phase configured BEFORE it (index order != phase order; continuing or denying) and with
+// a filter of an EARLIER phase configured AFTER it; and two asking filters (re-match x a in after-route,
+// re-choose x b in after-choose-host, a and b over mixed) sharing one request in both configured orders,
+// with and without a denying filter behind them.
+func c14RedoScenarios(ns, mixed []int) []hpScenario {
+	var out []hpScenario
+	mk := func(fs ...hpFilter) {
+		sc := hpScenario{Hosts: 1, RouteTimeoutMs: 1000, Requests: []hpRequest{{Token: "t1", Body: true, Script: []string{upReply200}}}}
+		sc.Filters = append([]hpFilter(nil), fs...)
+		sc.Name = c14Name(&sc) + " redo-rounds"
+		out = append(out, sc)
+	}
+	laters := []string{"continue", "hijack-stop", "direct"}
+	for _, n := range ns {
+		for _, k := range []struct{ phase, verb string }{{"after-route", "rematch"}, {"after-choose-host", "rechoose"}} {
+			R := hpFilter{Phase: k.phase, Verdict: fmt.Sprintf("%s*%d", k.verb, n)}
+			P := hpFilter{Phase: k.phase, Verdict: "continue"}
+			mk(R)
+			mk(P, R)
+			for _, l := range laters {
+				L := hpFilter{Phase: k.phase, Verdict: l}
+				mk(R, L)
+				mk(P, R, L)
+				if k.phase == "after-route" {
+					mk(hpFilter{Phase: "after-choose-host", Verdict: "continue"}, R, L)
+				}
+			}
+			if k.phase == "after-route" {
+				mk(hpFilter{Phase: "after-choose-host", Verdict: "continue"}, R)
+				mk(hpFilter{Phase: "after-choose-host", Verdict: "hijack-stop"}, R)
+				mk(R, hpFilter{Phase: "before-route", Verdict: "continue"})
+			} else {
+				mk(R, hpFilter{Phase: "after-route", Verdict: "continue"})
+			}
+		}
+	}
+	for _, a := range mixed {
+		for _, b := range mixed {
+			M := hpFilter{Phase: "after-route", Verdict: fmt.Sprintf("rematch*%d", a)}
+			C := hpFilter{Phase: "after-choose-host", Verdict: fmt.Sprintf("rechoose*%d", b)}
+			D := hpFilter{Phase: "after-choose-host", Verdict: "hijack-stop"}
+			mk(M, C)
+			mk(C, M)
+			mk(M, C, D)
+			mk(C, M, D)
+		}
+	}
+	return out
 }
 
 func (f *c14Filter) Append(ctx context.Context, headers api.HeaderMap, buf api.IoBuffer, trailers api.HeaderMap) api.StreamFilterStatus {
@@ -313,6 +391,21 @@ func c14CheckReq(sc *hpScenario, k int, obs *hpObs, report func(kind, detail str
 		}
 	}
 	logStr := strings.Join(mine, " ")
+	// redo requests of this request given in their documented phase (the ones the proxy honours). The
+	// proxy's OnReceive grants a request 10 rounds of its state machine and every redo uses one up: what
+	// happens to a request with >= 9 of them is named apart in the finding keys (findings/C14-redo-round-limit.md)
+	nRedo := 0
+	for _, e := range recv {
+		if (e.ret == string(api.StreamFilterReMatchRoute) && e.phase == "after-route") || (e.ret == string(api.StreamFilterReChooseHost) && e.phase == "after-choose-host") {
+			nRedo++
+		}
+	}
+	if nRedo >= 9 {
+		pre := report
+		report = func(kind, detail string) {
+			pre(kind+" [request with >= 9 re-match / re-choose requests: the 10 state-machine rounds OnReceive grants a request are used up]", detail)
+		}
+	}
 	// --- (1) receive order. A pass of a phase ends at a phase change or at a re-match / re-choose
 	// request; within a pass configured order (strictly increasing index), so at most once per pass.
 	answered, terminated := false, false
@@ -341,6 +434,11 @@ func c14CheckReq(sc *hpScenario, k int, obs *hpObs, report func(kind, detail str
 			lastIdx = -1
 		} else if resumeAt >= 0 && phaseRank[e.phase] < phaseRank[resumePhase] {
 			report("re-match/re-choose re-runs filters of an earlier phase", fmt.Sprintf("filter %d (%s) ran again after filter %d asked in phase %s: %s", e.idx, e.phase, resumeAt, resumePhase, logStr))
+		} else if resumeAt >= 0 && !resumeOptional {
+			// a request given in its documented phase is honoured by re-entering that phase's pass AT the
+			// requesting filter: a filter of a later phase cannot run while that resume is outstanding
+			report("re-match/re-choose request dropped: the request went on to a later phase without resuming the pass at the requesting filter", fmt.Sprintf("filter %d asked in phase %s, next receive call is filter %d of phase %s: %s", resumeAt, resumePhase, e.idx, e.phase, logStr))
+			resumeAt = -1
 		}
 		if e.idx <= lastIdx {
 			report("receive filters not run in configured order / more than once per pass", fmt.Sprintf("filter %d after %d in one pass of %s: %s", e.idx, lastIdx, e.phase, logStr))
@@ -357,6 +455,9 @@ func c14CheckReq(sc *hpScenario, k int, obs *hpObs, report func(kind, detail str
 			resumeAt, resumePhase = e.idx, e.phase
 			resumeOptional = (e.ret == string(api.StreamFilterReMatchRoute)) != (e.phase == "after-route")
 		}
+	}
+	if resumeAt >= 0 && !resumeOptional && obs.Attempts[token] > 0 {
+		report("re-match/re-choose request dropped: request forwarded upstream without resuming the pass at the requesting filter", fmt.Sprintf("filter %d asked in phase %s and was not called again, %d upstream request frame(s): %s", resumeAt, resumePhase, obs.Attempts[token], logStr))
 	}
 	// --- (1b) configured order leaves nobody out: a pass starts at the first configured filter of
 	// its phase (or at the filter that asked for the re-match / re-choose) and goes on with the
@@ -590,6 +691,14 @@ func TestVerifC14Filters(t *testing.T) {
 			}
 		}
 	}
+	// REPEATED redo requests inside one request (n rounds; the proxy itself gives up after 10 rounds of its state machine)
+	redoFrom := len(scs)
+	redoNs, redoMixed := []int{1, 2, 3, 5, 6, 7, 9, 10, 11}, []int{1, 2, 3, 5, 6}
+	if vreport.Thorough() {
+		redoNs, redoMixed = []int{1, 2, 3, 4, 5, 6, 7, 8, 9, 10, 11, 12, 13}, []int{1, 2, 3, 4, 5, 6, 7, 8, 9}
+	}
+	scs = append(scs, c14RedoScenarios(redoNs, redoMixed)...)
+	p.Note("redo_round_scenarios_all_shards", len(scs)-redoFrom)
 	// one-way requests have no response sender: a filter's denial must still keep them from the upstream
 	for _, sc := range c14Scenarios(vreport.Pick(1, 2), 1, []string{upReply200}) {
 		if len(sc.Filters) == 0 {
@@ -638,6 +747,6 @@ func TestVerifC14Filters(t *testing.T) {
 		n++
 	}
 	p.Note("scenarios", n)
-	p.End(complete, fmt.Sprintf("%d filter configurations (this shard): receive chains of length 0..%d over 3 phases x {continue, stop, terminate, hijack, hijack+stop, direct response, re-match, re-choose}, send chains 0..2 x {continue, stop}; upstream reply vs filter execution: all schedules with <=%d deviation", n, vreport.Pick(2, 3), bound),
+	p.End(complete, fmt.Sprintf("%d filter configurations (this shard): receive chains of length 0..%d over 3 phases x {continue, stop, terminate, hijack, hijack+stop, direct response, re-match, re-choose}, send chains 0..2 x {continue, stop}; repeated redo requests inside one request: re-match / re-choose x n for n in %v (mixed re-match x a + re-choose x b for a,b in %v) with later same-phase filters {continue, hijack+stop, direct}, a later-phase filter configured before and an earlier-phase filter configured after; upstream reply vs filter execution: all schedules with <=%d deviation", n, vreport.Pick(2, 3), redoNs, redoMixed, bound),
 		"every chain configuration is run on the real proxy with scripted filters registered through the public stream-filter factory API; call log + upstream byte stream + downstream frames compared with the statement; distinct = distinct (configuration, call log, downstream frames)")
 }
